@@ -315,6 +315,10 @@ pub enum Target {
     BitOff(u16, u8),
     Random([u8; 16]),
     Multicast([u8; 3]),
+    /// the solicited-node group (ff02::1:ffXX:XXXX) of a handled IPv6 address / the 224.x group
+    /// sharing the low 23 bits of a handled IPv4 address: groups the responder "belongs to" but
+    /// which are not on the self-IP list
+    OwnGroup(u16),
 }
 
 #[derive(Clone, Debug, Serialize, Deserialize, PartialEq)]
@@ -338,6 +342,7 @@ fn member_strategy() -> impl Strategy<Value = Member> {
             3 => (any::<u16>(), any::<u8>()).prop_map(|(i, b)| Target::BitOff(i, b)),
             2 => any::<[u8; 16]>().prop_map(Target::Random),
             1 => any::<[u8; 3]>().prop_map(Target::Multicast),
+            2 => any::<u16>().prop_map(Target::OwnGroup),
         ];
         (Just(scn), req(v4), target, any::<bool>()).prop_map(|(scn, req, target, ip_dst_too)| Member { scn, req, target, ip_dst_too })
     })
@@ -359,6 +364,20 @@ fn member_check(m: &Member, st: &mut Stats) -> Check {
             let k = (*b as usize) % n;
             o[k / 8] ^= 1 << (k % 8);
             if v4 { IpAddr::V4(Ipv4Addr::new(o[0], o[1], o[2], o[3])) } else { let mut x = [0u8; 16]; x.copy_from_slice(&o); IpAddr::V6(Ipv6Addr::from(x)) }
+        }
+        Target::OwnGroup(i) if !fam.is_empty() => {
+            let o = ip_octets(&fam[pick(*i, fam.len())]);
+            if v4 {
+                IpAddr::V4(Ipv4Addr::new(224, o[1] & 0x7f, o[2], o[3]))
+            } else {
+                let mut x = [0u8; 16];
+                x[0] = 0xff;
+                x[1] = 0x02;
+                x[11] = 1;
+                x[12] = 0xff;
+                x[13..].copy_from_slice(&o[13..]);
+                IpAddr::V6(Ipv6Addr::from(x))
+            }
         }
         Target::Multicast(t) => {
             if v4 { IpAddr::V4(Ipv4Addr::new(224, t[0], t[1], t[2])) } else { let mut x = [0u8; 16]; x[0] = 0xff; x[1] = 0x02; x[11] = 1; x[12] = 0xff; x[13..].copy_from_slice(t); IpAddr::V6(Ipv6Addr::from(x)) }
